@@ -165,24 +165,60 @@ def leancheck(module, fresh=False):
     return p.returncode == 0, (p.stdout + p.stderr)[-2000:]
 
 
-def run_lines(binary, lines, timeout=3600):
+STALL = 45  # seconds without an answer before the case in progress is declared hung
+MAX_HANGS = 3  # after that many hung cases the rest of the batch is not run (answer NOTRUN)
+
+
+def run_lines(binary, lines, timeout=3600, stall=STALL, hangs=0):
+    """feed `lines` to a driver and collect `<id> <answer>`; a process that dies gives ABORT for the case in progress, one
+    that produces no answer for `stall` seconds is killed and gives HANG for it; the remaining cases are re-run"""
     if not lines:
         return {}
-    p = subprocess.run([binary], input="\n".join(lines) + "\n", capture_output=True, text=True, timeout=timeout)
+    import selectors, threading
+    p = subprocess.Popen([binary], stdin=subprocess.PIPE, stdout=subprocess.PIPE, stderr=subprocess.DEVNULL)
+    data = ("\n".join(lines) + "\n").encode()
+
+    def feed():
+        try:
+            p.stdin.write(data)
+            p.stdin.close()
+        except (BrokenPipeError, OSError):
+            pass
+    th = threading.Thread(target=feed, daemon=True)
+    th.start()
+    sel = selectors.DefaultSelector()
+    sel.register(p.stdout, selectors.EVENT_READ)
+    buf = b""
+    hung = False
+    fd = p.stdout.fileno()
+    while True:
+        if not sel.select(timeout=stall):
+            hung = True
+            p.kill()
+            break
+        chunk = os.read(fd, 1 << 20)
+        if not chunk:
+            break
+        buf += chunk
+    p.wait()
     out = {}
-    for l in p.stdout.split("\n"):
+    for l in buf.decode(errors="replace").split("\n"):
         if not l:
             continue
         i, _, r = l.partition(" ")
         out[i] = r
-    if p.returncode != 0 and len(out) < len(lines):
-        # the process died (abort/stack overflow): the first unanswered case is the culprit
+    if (hung or p.returncode != 0) and len(out) < len(lines):
+        # the process died (abort/stack overflow) or stalled: the first unanswered case is the culprit
         for l in lines:
             cid = l.split(" ")[1]
             if cid not in out:
-                out[cid] = "ABORT"
+                out[cid] = "HANG" if hung else "ABORT"
+                hangs += 1 if hung else 0
                 rest = [x for x in lines if x.split(" ")[1] not in out]
-                out.update(run_lines(binary, rest, timeout))
+                if hangs >= MAX_HANGS:
+                    out.update({x.split(" ")[1]: "NOTRUN" for x in rest})
+                else:
+                    out.update(run_lines(binary, rest, timeout, stall, hangs))
                 break
     return out
 
